@@ -1193,6 +1193,66 @@ Definition act_expr_check (args : list pyval) : res pyval :=
   | _ => Unsupported "expr COMMA check_ex form"
   end.
 
+
+(* ---------- batch 7: p_create_schema in general, database forms, multi_id_or_string ------------------------------------------------------------ *)
+Definition list_has (args : list pyval) (w : string) : bool := existsb (fun v => str_is v w) args.
+Fixpoint index_of (args : list pyval) (w : string) (i : nat) : option nat :=
+  match args with [] => None | v :: r => if str_is v w then Some i else index_of r w (S i) end.
+(* set_properties_for_schema_and_database; pl = p_list (with the leading None) *)
+Definition set_props_sd (d : list (string * pyval)) (pl : list pyval) : res (list (string * pyval)) :=
+  let n := List.length pl in
+  if negb (tr d "properties") then
+    let props := if Nat.eqb n 3 then Some (List.last pl PNone)
+                 else if Nat.ltb 3 n then
+                        match nth (n - 3) pl PNone with
+                        | PStr k => Some (PDict [(k, List.last pl PNone)])
+                        | _ => None end
+                      else Some (PDict []) in
+    match props with
+    | None => Raise TypeError
+    | Some pr => Ok (if truthy_a pr then dict_set d "properties" pr else d)
+    end
+  else
+    match dict_get d "properties", nth (n - 3) pl PNone with
+    | Some (PDict pd), PStr k => Ok (dict_set d "properties" (PDict (dict_set pd k (List.last pl PNone))))
+    | _, _ => Raise AttributeError
+    end.
+Definition act_create_schema_gen (args : list pyval) : res pyval :=
+  let pl := PNone :: args in
+  let n := List.length pl in
+  let p0 := if list_has pl "EXISTS" then [("if_not_exists", PBool true)] else [] in
+  do '(p0a, auth_index) <-
+     match nth 1 pl PNone with
+     | PDict d =>
+         if list_has pl "COMMENT" then Ok (dict_set d "comment" (List.last pl PNone), None)
+         else (do d2 <- set_props_sd d pl; Ok (d2, None))
+     | _ =>
+         match index_of pl "AUTHORIZATION" 0 with
+         | Some ai =>
+             if str_is (nth 2 pl PNone) "AUTHORIZATION"
+             then Ok ([("schema_name", nth 3 pl PNone); ("authorization", nth 3 pl PNone)], Some ai)
+             else Ok ([("schema_name", nth 2 pl PNone); ("authorization", List.last pl PNone)], Some ai)
+         | None => Ok (p0, None)
+         end
+     end;
+  do p0b <-
+     (if negb (tr p0a "schema_name") && (match List.last pl PNone with PStr _ => true | _ => false end) then
+        let cand := match auth_index with
+                    | Some ai => (match nth (ai - 1) pl PNone with PNone => nth (ai + 1) pl PNone | v => v end)
+                    | None => if list_has pl "=" then nth 2 pl PNone else List.last pl PNone
+                    end in
+        match cand with
+        | PStr nm_ => Ok (dict_set p0a "schema_name" (PStr (replace nm_ "`" "")))
+        | _ => Raise AttributeError
+        end
+      else Ok p0a);
+  if Nat.ltb 4 n && (match auth_index with Some (S _) => false | _ => true end) && list_has pl "." then
+    match nth (n - 3) pl PNone with
+    | PStr pr => Ok (PDict (dict_set p0b "project" (PStr (replace pr "`" ""))))
+    | _ => Raise AttributeError
+    end
+  else Ok (PDict p0b).
+
 Definition action_more (norm : bool) (prod : string) (args : list pyval) : res pyval :=
   match words prod with
   | lhs :: _ :: _ =>
@@ -1349,6 +1409,50 @@ Definition action_more (norm : bool) (prod : string) (args : list pyval) : res p
     else if String.eqb prod "encode -> ENCODE id" then
       match args with [_; v] => Ok (PDict [("encode", v)]) | _ => Unsupported "encode form" end
     else if String.eqb prod "STRING -> STRING STRING_BASE" then act_string args
+    else if startswith prod "expr -> expr LOCATION" then
+      match args with
+      | PDict t :: _ =>
+          if Nat.eqb (List.length args) 8 then
+            match all_strs (skipn 3 args) with Some ss => Ok (PDict (dict_set t "location" (PStr (join "" ss)))) | None => Raise TypeError end
+          else Ok (PDict (dict_set t "location" (List.last args PNone)))
+      | _ => Unsupported "location form" end
+    else if String.eqb prod "expr -> expr STORED AS id STRING" || String.eqb prod "expr -> expr STORED AS id STRING id STRING" then
+      match args with
+      | [PDict t; _; _; PStr a; va] => Ok (PDict (dict_set t "stored_as" (PDict [(lower a, va)])))
+      | [PDict t; _; _; PStr a; va; PStr b; vb] => Ok (PDict (dict_set t "stored_as" (PDict (dict_set [(lower b, vb)] (lower a) va))))
+      | _ => Unsupported "stored as form" end
+    else if String.eqb lhs "create_schema" then act_create_schema_gen args
+    else if String.eqb lhs "c_schema" then (if Nat.eqb (List.length args) 3 then Ok (PDict [("remote", PBool true)]) else Ok PNone)
+    else if String.eqb prod "create_database -> create_database multi_id_equals" || String.eqb prod "create_database -> create_database id id STRING"
+            || String.eqb prod "create_database -> create_database options" then
+      match args with PDict d :: _ => do d2 <- set_props_sd d (PNone :: args); Ok (PDict d2) | _ => Unsupported "create_database form" end
+    else if String.eqb prod "database_base -> CREATE ID DATABASE id" then
+      match args with [_; PStr w; _; name] => Ok (PDict [("database_name", name); (lower w, PBool true)]) | _ => Unsupported "database_base form" end
+    else if String.eqb prod "database_base -> database_base clone" then
+      match args with [PDict d; PDict c] => Ok (PDict (dict_update d c)) | _ => Unsupported "database_base clone form" end
+    else if String.eqb prod "expr -> expr database_base" then
+      match args with [PDict t; PDict b] => Ok (PDict (dict_update t b)) | _ => Unsupported "expr database_base form" end
+    else if String.eqb prod "expr -> expr id" || String.eqb prod "expr -> expr clone" then
+      (* p_expression_schema *)
+      match args with
+      | [PDict d; PDict c] => Ok (PDict (dict_update d c))
+      | [PDict d; v] =>
+          match dict_get d "schema" with
+          | Some PNone | None => match rev d with (k, _) :: _ => Ok (PDict (dict_set d k v)) | [] => Raise IndexError end
+          | Some _ => Ok (PDict (dict_set d "authorization" v))
+          end
+      | _ => Unsupported "expr id form" end
+    else if String.eqb lhs "multi_id_or_string" then
+      match args with
+      | PList l :: _ => Ok (PList (l ++ [List.last args PNone])%list)
+      | _ => match all_strs args with
+             | Some ss => Ok (PStr (replace (replace (replace (join " " ss) " = " "=") "= " "") " . " "."))
+             | None => Raise TypeError end
+      end
+    else if String.eqb prod "expr -> DROP TABLE id" then
+      match args with [_; _; n] => Ok (PDict [("schema", PNone); ("table_name", n)]) | _ => Unsupported "drop form" end
+    else if String.eqb prod "expr -> DROP TABLE id DOT id" then
+      match args with [_; _; sch; _; n] => Ok (PDict [("schema", sch); ("table_name", n)]) | _ => Unsupported "drop form" end
     else if String.eqb prod "expr -> alter_check" then act_expr_alter args
     else if String.eqb lhs "period_for" then
       match args with [_; _; _; _; v; _] => Ok (PDict [("period_for_system_time", v)]) | _ => Unsupported "period_for form" end
